@@ -79,6 +79,19 @@ def run(tier, seed, replay=None):
         ("a = [[1], 2]; p, q = a; p[0] = 7; a[0]", "[i:7]", "a list element unpacked into a name is still a reference to that list"),
         ("func f() { return [1, 2] }; a = f(); p, q = a; a[0] = 7; p", "i:1", "unpacking the list a function returned"),
     ]
+    # an operand read from a slot is the value the slot had when the operand was evaluated: a later operand of the same expression
+    # that writes to the slot does not change it
+    _T = "a = make([]int64, 2); a[0] = 1; func f() { a[0] = 10; return 0 }; "
+    _L = "a = [1, 2]; func f() { a[0] = 10; return 0 }; "
+    for _pre, _what in ((_T, "a typed slice element"), (_L, "a list element")):
+        detached += [
+            (_pre + "a[0] + f()", "i:1", "left operand of +: " + _what), (_pre + "a[0] - f()", "i:1", "left operand of -: " + _what),
+            (_pre + "a[0] * (f() + 3)", "i:3", "left operand of *: " + _what), (_pre + "a[0] < (f() + 5)", "b:true", "left operand of <: " + _what),
+            (_pre + "a[0] == (f() + 1)", "b:true", "left operand of ==: " + _what), (_pre + "a[0] | f()", "i:1", "left operand of |: " + _what),
+            (_pre + "a[0] in [f() + 1]", "b:true", "left operand of in: " + _what), (_pre + "a[0] in [f() + 10]", "b:false", "left operand of in: " + _what),
+            (_pre + "{a[0]: f()}[1]", "i:0", "key of a map literal: " + _what), (_pre + "map[int64]int64{a[0]: f()}[1]", "i:0", "key of a typed map literal: " + _what),
+            (_pre + "[a[0], f(), a[0]]", "[i:1,i:0,i:10]", "elements of a list literal are evaluated in order: " + _what),
+        ]
     # three-index slices: 0 <= lo <= hi <= max <= cap(a) as in Go, the capacity of the source counts, not its length
     detached += [
         ("a = [1, 2, 3, 4, 5]; b = a[0:2]; c = b[0:1:4]; c += [9, 8, 7]; [a, c]", "[[i:1,i:9,i:8,i:7,i:5],[i:1,i:9,i:8,i:7]]",
